@@ -86,11 +86,25 @@ inline std::string p_root_ops(int slot) {
     cJSON_Delete(rep); cJSON_Delete(rem); cJSON_Delete(add); cJSON_Delete(solo); cJSON_Delete(holder); return r;
 }
 
+inline std::string p_large_tokens(int slot) {
+    // tokens longer than any fixed scratch buffer (a static or cached buffer that only long inputs use is shared state like any other)
+    std::string r; std::string num((size_t)70 + (size_t)slot, (char)('1' + slot)), frac = "0." + std::string((size_t)80, (char)('3' + slot)) + "e-" + S(slot + 1);
+    for (const std::string& t : { num, "[" + frac + "," + S(slot) + "]", "-" + std::string(64, '0') + S(slot + 1) }) { cJSON* n = cJSON_Parse(t.c_str()); r += n ? take(cJSON_PrintUnformatted(n)) : std::string("NULL"); r += ";"; if (n) cJSON_Delete(n); }
+    std::string nest, close; for (int i = 0; i < 40; i++) { nest += "["; close += "]"; }
+    std::string text = "[\"" + std::string(300, (char)('a' + slot)) + "\\n\",{\"" + std::string(200, 'k') + S(slot) + "\":" + nest + S(slot) + close + "}]";
+    cJSON* t = cJSON_Parse(text.c_str()); if (!t) return r + "parse failed";
+    r += take(cJSON_Print(t)) + "|" + take(cJSON_PrintBuffered(t, 16, 0)); cJSON* d = cJSON_Duplicate(t, 1); r += cJSON_Compare(t, d, 1) ? "|equal" : "|unequal";
+    cJSON_SetValuestring(cJSON_GetArrayItem(d, 0), std::string(600, (char)('A' + slot)).c_str()); cJSON_SetValuestring(cJSON_GetArrayItem(d, 0), ("short" + S(slot)).c_str()); r += "|" + take(cJSON_PrintUnformatted(cJSON_GetArrayItem(d, 0)));
+    std::vector<char> buf(text.begin(), text.end()); buf.push_back(0); cJSON_Minify(buf.data()); r += "|" + S((int)strlen(buf.data()));
+    char* ptr = cJSONUtils_FindPointerFromObjectTo(t, cJSON_GetArrayItem(t, 1)->child); r += "|" + take(ptr);
+    cJSON_Delete(d); cJSON_Delete(t); return r;
+}
+
 typedef std::string (*Prog)(int);
 struct Entry { const char* name; Prog fn; };
 inline const std::vector<Entry>& all() {
     static const std::vector<Entry> v = { { "parse+print", p_parse_print }, { "failing-parse", p_parse_fail }, { "construct+PrintBuffered", p_construct }, { "numbers", p_numbers }, { "PrintPreallocated", p_prealloc },
-                                          { "duplicate+compare", p_dup_compare }, { "edits", p_edits }, { "minify", p_minify }, { "patch-generate+apply", p_patch }, { "merge-patch+sort", p_merge }, { "whole-document-patches", p_root_ops } };
+                                          { "duplicate+compare", p_dup_compare }, { "edits", p_edits }, { "minify", p_minify }, { "patch-generate+apply", p_patch }, { "merge-patch+sort", p_merge }, { "whole-document-patches", p_root_ops }, { "large-tokens", p_large_tokens } };
     return v;
 }
 } // namespace progs
